@@ -13,7 +13,7 @@
    it again).  Not covered: SetHead (which makes the head lighter by design) and
    pruning nodes (direct oracle only). *)
 From Coq Require Import NArith List.
-From AQ Require Import Chain.Store Chain.ChainSpec Chain.ChainProofs Chain.ChainAccept Chain.Crash Chain.ChainReopen Chain.ChainWitness.
+From AQ Require Import Chain.Store Chain.ChainSpec Chain.ChainProofs Chain.ChainAccept Chain.Crash Chain.ChainReopen Chain.ChainAllOps Chain.ChainAllOpsWitness Chain.ChainWitness.
 Import ListNotations.
 Local Open Scope N_scope.
 
@@ -92,6 +92,27 @@ Theorem C02_with_reopen : forall (U : N -> sblock) (g : header),
   (forall k, block_data_complete (crash_disk d0 (log_of s) k)).
 Proof. exact c02_with_reopen. Qed.
 Print Assumptions C02_with_reopen.
+
+(* TD bookkeeping over EVERY history - InsertChain (reorganisations, side blocks, re-import of known
+   blocks), InsertHeaderChain, SetHead, Rollback, close/reopen in any order, including the states an
+   operation leaves when it ends in an error or a panic: every stored total difficulty is the
+   universe's ([utd], with utd b = utd (parent b) + difficulty b), so td(b) = td(parent) + difficulty(b)
+   whenever both are stored.  Premises: the genesis facts and [wf_ops] (delivered blocks / headers are the
+   universe's, number = parent number + 1 < 2^64, utd additive). *)
+Theorem C02_td_sound_all_ops : forall (U : N -> sblock) (utd : N -> N) (g : header),
+  U (h_hash g) = (g, []) -> h_number g = 0 -> utd (h_hash g) = h_diff g -> h_parent g = 0 ->
+  forall ops, wf_ops U utd ops ->
+  let d := dsk (run ops (pre_open g)) in
+  (forall h t, td_of d h = Some t -> t = utd h) /\
+  (forall h t pt, td_of d h = Some t -> td_of d (h_parent (fst (U h))) = Some pt ->
+     h <> h_hash g -> header_of d h <> None -> t = pt + h_diff (fst (U h))).
+Proof. exact td_sound_all_ops. Qed.
+Print Assumptions C02_td_sound_all_ops.
+
+(* non-vacuity: a universe and a history using all five operations satisfy the premises *)
+Example C02_all_ops_example : wf_ops Uw utdw ops_all /\
+  Uw (h_hash wg) = (wg, []) /\ h_number wg = 0 /\ utdw (h_hash wg) = h_diff wg /\ h_parent wg = 0.
+Proof. exact ops_all_wf. Qed.
 
 (* a reorganisation never fails on blocks whose stored ancestry reaches genesis *)
 Theorem C02_reorg_total : forall (g : header) (fuel : nat) (o n : sblock) (s : st),
